@@ -292,4 +292,48 @@ theorem C15_shutdown {β : Type} (p : Plugin) (hd : Handlers) (hnew : setupHandl
   | false => have : p.has .shutdown = false := hp; simp [dispatch, hb, this]
   | true => have : p.has .shutdown = true := hp; simp [dispatch, hb, this]
 
+/-- Restart invariance. Reuse one stub for any number of sessions (Start, configuration,
+    requests, Stop or connection loss, Start again …): what the stub does in a session — the
+    Configure invocation and its answer, every handler invocation and every reply — is what a
+    freshly created stub of the same plugin type would do in that session. It does not depend on
+    the masks asked for, the errors returned or the requests handled in earlier sessions: the
+    implemented-events mask and the handler table are not changed by use. -/
+theorem C15_restart_invariant {β : Type} (hd : Handlers) (d : Dyn β) (hd0 : d.syncReq = none)
+    (pre : List (Session β)) (s : Session β) :
+    (runSessions ⟨hd, d⟩ (pre ++ [s])).1.getLast? = some (runSession ⟨hd, {}⟩ s).1 ∧
+    (runSessions ⟨hd, d⟩ (pre ++ [s])).2.handlers = hd := by
+  have hst := runSessions_state ⟨hd, d⟩ pre
+  refine ⟨?_, (runSessions_state ⟨hd, d⟩ (pre ++ [s])).1⟩
+  rw [runSessions_append]
+  simp only [List.getLast?_append, List.getLast?_singleton, Option.some_or]
+  rw [runSession_indep (runSessions ⟨hd, d⟩ pre).2 ⟨hd, {}⟩ hst.1 (hst.2 hd0)]
+
+/-- In particular the configuration answer of a later session is the one `C15_configure`
+    describes in terms of the plugin type alone: an empty request again means everything
+    implemented, a subset of the implemented events is granted even if an earlier session asked
+    for less, an unimplemented event is refused. -/
+theorem C15_restart_configure {β : Type} (p : Plugin) (hd : Handlers) (hnew : setupHandlers p = .ok hd)
+    (d : Dyn β) (hd0 : d.syncReq = none) (pre : List (Session β)) (s : Session β) :
+    ∃ o, (runSessions ⟨hd, d⟩ (pre ++ [s])).1.getLast? = some o ∧
+      (o.cfg.calls, o.cfg.result) =
+        ((configure hd s.cfgB s.config s.runtime s.version).1,
+         (configure hd s.cfgB s.config s.runtime s.version).2.map Reply.configure) ∧
+      (p.configure = true → (s.cfgB .configure (.config s.config s.runtime s.version)).err = none →
+        (s.cfgB .configure (.config s.config s.runtime s.version)).events = 0#32 →
+        o.cfg.result = .ok (.configure (subscribe p))) := by
+  refine ⟨_, (C15_restart_invariant hd d hd0 pre s).1, ?_, ?_⟩
+  · rw [runSession_cfg]
+    have := dispatch_configure_eq hd s.cfgB ({} : Dyn β) s.config s.runtime s.version s.regMs s.reqMs
+    rw [this.1, this.2]
+  · intro hp herr hz
+    have hc := C15_configure p hd hnew s.cfgB s.config s.runtime s.version
+    rw [runSession_cfg, (dispatch_configure_eq hd s.cfgB ({} : Dyn β) s.config s.runtime s.version s.regMs s.reqMs).2, hc]
+    simp [hp, herr, hz, Except.map]
+
+example : ((runSessions (β := Nat) ⟨setupOrder.foldl (setupStep ⟨0b111#13, true, false, false⟩) Handlers.empty, {}⟩
+            [ ⟨fun _ _ => { events := 0b001#32 }, [], [], [], 1, 1, []⟩,
+              ⟨fun _ _ => { events := 0#32 }, [], [], [], 1, 1, []⟩,
+              ⟨fun _ _ => { events := 0b110#32 }, [], [], [], 1, 1, []⟩ ]).1.map (·.cfg.result)) =
+          [.ok (.configure 0b001#32), .ok (.configure 0b111#32), .ok (.configure 0b110#32)] := by rfl
+
 end Nri.Props.C15
